@@ -221,29 +221,42 @@ class FakeCircuit(Host):
 
 
 def find_convertors(ck: Checker):
+    """The table from gate types to bench rewrites (`_convertors`), *evaluated*: plain functions, closures produced by a factory
+    and callable records all count.  Returns (module, dict node, table) with table[t] = (module, display name, key node, value
+    node), table.calls[t] the callable and table.nodes[t] the syntax node findings are attached to."""
+    from .cnf_templates import evaluated_table
     repo = ck.repo
     mod = repo.mod(CONV)
-    d = mod.assign('_convertors')
-    if not isinstance(d, ast.Dict):
-        raise AnalysisError(f'{mod.rel}: _convertors is not a dict literal')
-    table = {}
-    for k, v in zip(d.keys, d.values):
-        t = gate_const(repo, mod, k)
-        if t is None:
-            raise AnalysisError(f'{mod.rel}: key `{norm(k)}` of _convertors is not a GateType constant')
-        res = repo.resolve_expr(mod, v)
-        if not res or res[2] != 'function':
-            raise AnalysisError(f'{mod.rel}: converter `{norm(v)}` does not resolve')
-        table[t] = (res[0], res[1], k, v)
+    ov = gate_overrides(Denotations(repo))
+    ov[f'{GATE_MOD}.Gate'] = FakeGate
+    it = Interp(repo, overrides=ov)
+    cands = []
+    for name, value in mod.assigns.items():
+        if isinstance(value, (ast.Dict, ast.DictComp, ast.Call)) or name == '_convertors':
+            t = evaluated_table(repo, mod, it, value, name)
+            if t is not None and len(t) >= 4:
+                cands.append((name, value, t))
+    cands.sort(key=lambda c: -len(c[2]))
+    if not cands:
+        raise AnalysisError(f'{mod.rel}: table from gate types to bench rewrites not found')
+    name, d, ev = cands[0]
+    # (converters keep the order (module, name, key node, value node))
+    table = type(ev)()
+    for t, (hmod, hname, vnode, knode) in ev.items():
+        table[t] = (hmod, hname, knode, vnode)
+    table.calls, table.nodes, table.interp = ev.calls, ev.nodes, it
     return mod, d, table
 
 
-def run_converter(repo, den: Denotations, hmod, hname, tname, operands):
+def run_converter(repo, den: Denotations, hmod, hname, tname, operands, call=None, it=None):
     """Fold one converter over the model. Returns (circuit_before_snapshot, circuit_after, error)."""
-    ov = gate_overrides(den)
-    ov[f'{GATE_MOD}.Gate'] = FakeGate
-    it = Interp(repo, overrides=ov)
-    types = {t.var: t for t in ov.values() if isinstance(t, GateTypeVal)}
+    if call is None:
+        ov = gate_overrides(den)
+        ov[f'{GATE_MOD}.Gate'] = FakeGate
+        it = Interp(repo, overrides=ov)
+        call = RepoFunc(it, hmod, hmod.func(hname))
+    types = {t.var: t for t in it.overrides.values() if isinstance(t, GateTypeVal)}
+    it.steps = 0
     c = FakeCircuit(types['INPUT'])
     for lab in ('in0', 'x', 'y'):
         c.emplace_gate(lab, types['INPUT'])
@@ -257,7 +270,7 @@ def run_converter(repo, den: Denotations, hmod, hname, tname, operands):
     c._blocks['also_g'] = FakeBlock('also_g', list(dict.fromkeys(operands)), ['g', 'user'], ['user'])
     c.log.clear()
     before = set(c._gates)
-    f = RepoFunc(it, hmod, hmod.func(hname))
+    f = call
     try:
         f(c._gates['g'], c)
     except InterpRaise as e:
